@@ -109,7 +109,7 @@ func (w *World) Apply(op Op, style NodeStyle) Outcome {
 			n.CloseErr = &NodeErr{Obj: n.Obj, Prov: "close"}
 		}
 		out.Node = n
-		err := w.B.RegisterNode(eventlogger.NodeID(op.ID), n, policyOpts(true, op.Policy)...)
+		err := w.B.RegisterNode(eventlogger.NodeID(op.ID), n.asRegistered(), policyOpts(true, op.Policy)...)
 		out.RealOK, out.RealErr = err == nil, err
 		out.ModelOK, out.ModelSet = w.M.RegisterNode(op.ID, n, op.Policy), true
 	case "regpipe":
